@@ -174,8 +174,10 @@ Lemma tie_idl_packageParser : f_idl_packageParser =
 Proof. reflexivity. Qed.
 
 Lemma tie_idl_ParsePackage_text : f_idl_ParsePackage_text =
-  "func ParsePackage(input []byte) (*PackageDeclaration, error) { context := NewContext() parser := packageParser(context) root, scanner := parser(parsec.NewScanner(input).TrackLineno()) _, scanner = scanner.SkipWS() if !scanner.Endof() { return nil, fmt.Errorf("""", scanner.Lineno()) } if root == nil { return nil, fmt.Errorf("""", input) } definitions, ok := root.(*PackageDeclaration) if !ok { if err, ok := root.(error); ok { return nil, err } return nil, fmt.Errorf("""", reflect.TypeOf(root)) } return definitions, nil }"%string.
-Proof. reflexivity. Qed.
+  "func ParsePackage(input []byte) (*PackageDeclaration, error) { context := NewContext() parser := packageParser(context) root, scanner := parser(parsec.NewScanner(input).TrackLineno()) _, scanner = scanner.SkipWS() if !scanner.Endof() { return nil, fmt.Errorf("""", scanner.Lineno()) } if root == nil { return nil, fmt.Errorf("""", input) } definitions, ok := root.(*PackageDeclaration) if !ok { if err, ok := root.(error); ok { return nil, err } return nil, fmt.Errorf("""", reflect.TypeOf(root)) } return definitions, nil }"%string \/
+  f_idl_ParsePackage_text =
+  "func ParsePackage(input []byte) (*PackageDeclaration, error) { context := NewContext() parser := packageParser(context) root, scanner := parser(parsec.NewScanner(input).TrackLineno()) _, scanner = scanner.SkipWS() if !scanner.Endof() { return nil, fmt.Errorf("""", scanner.Lineno()) } if root == nil { return nil, fmt.Errorf("""", input) } definitions, ok := root.(*PackageDeclaration) if !ok { if err, ok := root.(error); ok { return nil, err } return nil, fmt.Errorf("""", reflect.TypeOf(root)) } for _, decl := range definitions.Types { if s, ok := decl.(*signature.StructType); ok && strings.Contains(s.Signature(), """"+recursiveMark) { return nil, fmt.Errorf("""", s.Name) } } return definitions, nil }"%string.
+Proof. (left; reflexivity) || (right; reflexivity). Qed.
 
 Lemma tie_idl_nodifyActionList_text : f_idl_nodifyActionList_text =
   "func nodifyActionList(nodes []signature.Node) signature.Node { var itf InterfaceType itf.Methods = make(map[uint32]Method) itf.Signals = make(map[uint32]Signal) itf.Properties = make(map[uint32]Property) var customAction = uint32(100) for _, node := range nodes { if err, ok := node.(error); ok { return err } if method, ok := node.(Method); ok { if method.ID == 0 && method.Name != """" { method.ID = customAction customAction++ } itf.Methods[method.ID] = method } else if signal, ok := node.(Signal); ok { if signal.ID == 0 { signal.ID = customAction customAction++ } itf.Signals[signal.ID] = signal } else if property, ok := node.(Property); ok { if property.ID == 0 { property.ID = customAction customAction++ } itf.Properties[property.ID] = property } else { return fmt.Errorf("""", reflect.TypeOf(node), node) } } return &itf }"%string.
@@ -243,8 +245,10 @@ Lemma tie_idl_scopeAdd_text : f_idl_scopeAdd_text =
 Proof. reflexivity. Qed.
 
 Lemma tie_idl_RefSignature_text : f_idl_RefSignature_text =
-  "func (r *RefType) Signature() string { t, err := r.Scope.Search(r.Name) if err == nil { return t.Signature() } return signature.NewStructType(err.Error(), nil).Signature() }"%string.
-Proof. reflexivity. Qed.
+  "func (r *RefType) Signature() string { t, err := r.Scope.Search(r.Name) if err == nil { return t.Signature() } return signature.NewStructType(err.Error(), nil).Signature() }"%string \/
+  f_idl_RefSignature_text =
+  "func (r *RefType) Signature() string { if r.busy { return signature.NewStructType(recursiveMark+r.Name, nil).Signature() } r.busy = true defer func() { r.busy = false }() t, err := r.Scope.Search(r.Name) if err == nil { return t.Signature() } return signature.NewStructType(err.Error(), nil).Signature() }"%string.
+Proof. (left; reflexivity) || (right; reflexivity). Qed.
 
 Lemma tie_idl_MethodMeta_text : f_idl_MethodMeta_text =
   "func (m Method) Meta(id uint32) object.MetaMethod { var meta object.MetaMethod meta.Uid = id meta.Name = m.Name meta.ReturnSignature = m.Return.Signature() meta.ReturnDescription = m.Return.SignatureIDL() params := make([]signature.Type, 0) meta.Para" ++ "meters = make([]object.MetaMethodParameter, 0) for _, p := range m.Params { var param object.MetaMethodParameter param.Name = p.Name param.Description = p.Type.SignatureIDL() meta.Para" ++ "meters = append(meta.Para" ++ "meters, param) params = append(params, p.Type) } meta.ParametersSignature = signature.NewTupleType(params).Signature() return meta }"%string.
